@@ -85,6 +85,19 @@ func init() {
 		Assumptions: []string{"tier A cannot observe Subscription.Drain on the zero-value subscription it hands out; the server-side effect of Drain is emulated at the instrumented point directly after the Drain call"},
 	})
 	addCheck(&CheckSpec{
+		Property: "C19", Level: "exploration", OwnsPanics: true,
+		Rule:   "sendreq scenario (tier A): resprot.SendRequest runs as a task against a scripted peer on the simulated clock: up to 5 messages with delays of 0 ms to 4 s drawn from valid results, error and resource responses, garbage, empty payload, timeout pre-responses and malformed pre-responses; messages that arrive back to back while the requester has not started waiting (inbox channel capacity 1, drop on full as nats.go does); failing subscribe or publish; nil, object and unmarshalable request values; 0-2 extension callbacks. Arrival instants and deadlines never coincide (10 ms grid versus 5 ms offsets), so timer and inbox are never ready together.",
+		Oracle: "a timed reference model walks the script and predicts the returned response (kind, error code, result, resource id), the exact simulated instant of return and the durations handed to the extension callbacks; all three must match; SendRequest must return within 80 simulated seconds.",
+		Scen:   []ScenBudget{{"sendreq", 6000, 400000}},
+		Assumptions: []string{"tier A hands out a zero-value subscription, so the release of the inbox subscription is not observable here"},
+	})
+	addCheck(&CheckSpec{
+		Property: "C20", Level: "exploration", OwnsPanics: true,
+		Rule:   "legacy scenario: a simulated service whose model and collection resources use middleware.BadgerDB or resbadger.Model/Collection (typed and untyped, with and without default) on real BadgerDB; 1-3 producer goroutines per round submit With callbacks that emit scripted change (incl. delete actions and unchanged values), add, remove, create and delete events (incl. out-of-range indexes, create on existing, change on missing) on resources in different groups, so applies interleave on different workers against one database; crash images at sampled decision points; clean reopen at the end.",
+		Oracle: "a reference model folds the applicable events over the initial/default value: per event, an inapplicable one must publish nothing (and leave storage unchanged), an applicable one publishes exactly one message, an unchanged change publishes nothing; change listeners get the previous stored values as old values and delete listeners the previous stored value; Value() inside the callback, get at every quiescent instant and get after reopening the database equal the fold; in a crash image each resource holds the fold of the returned events with the one in flight either included or not.",
+		Scen:   []ScenBudget{{"legacy", 2000, 80000}},
+	})
+	addCheck(&CheckSpec{
 		Property: "C07", Level: "exploration",
 		Rule:   "transport monitor on every Publish of the requests and core scenarios: results/models/collections/event payloads that are nil, nested, need escaping or cannot be marshalled; every meta combination on HTTP and non-HTTP requests; marshal failures and publish errors as injected faults.",
 		Oracle: "independent validator written from the RES protocol text: subject is a publishable NATS subject of a documented form (reply inbox handed out by the peer, event.<rid>.<name>, system.reset, system.tokenReset, conn.<cid>.token); payload has the documented shape for its kind (response with exactly one of result/resource/error, error with string code and message, meta only for HTTP requests, pre-response timeout:\"<ms>\", per-event fields).",
